@@ -19,10 +19,25 @@ for EVERY query, fuel, as-typed text, extra parameters and injected input:
   * `c18_attributes`       along ANY chain of predecessors of a successful evaluation capitalised attribute keys persist;
                            `c18_attributes_step`: after an action the attributes are the capitalised inherited ones with the
                            command's own on top, so the non-capitalised ones are exactly the last command's.
-The kept copies (cache / store) are not part of `metaOf`: `c18_kept_copy_agrees_statement` records the full
-statement; it is covered by the oracle of harness/props/C18.py on the implementation only.
+The copy kept by the CACHE, on the cache model of the evaluator (`evalQ`, LiquerModel/Eval.lean; `keptAfter` = the record
+(status, state) under the canonical key after the evaluation; lemmas in Lemmas/EvalKept.lean), in a `Sound` world with the
+cache enabled, for a closed class of queries with the canonical-text hypothesis (as in C05/C09):
+
+  * `c18_kept_copy_success`   successful, non-volatile, caching on: the kept record has status `ready` and holds a state equal
+                              to the returned one up to `status`; every field of the returned metadata that is a function
+                              of the final state (`recOfState`: query text, status, error flag, type identifier / kind of
+                              data characteristics of the value, last command and its name, file name, extension, media
+                              type, attributes) is that field of the kept state — for every modelled run of `metaOf`;
+  * `c18_kept_copy_error`     failed: the kept record is metadata-only with status `error`; the returned metadata carries the
+                              error flag and the same status;
+  * `c18_kept_copy_uncached`  successful but volatile or cache-disabled: no record (hence no data) is kept under the key.
+The fields of `MetaRec` recorded by the evaluating context only (namespace / version flag of the resolved command,
+`parent_query`, `argument_queries`, `direct_subqueries`) are not carried by the entries of the cache model; for those and
+for the copy kept by the STORE (`store_key`) `c18_kept_copy_agrees_statement` records the full statement as a schema over
+unmodelled values; it is covered by the oracle of harness/props/C18.py on the implementation only.
 -/
 import LiquerProofs.Lemmas.EvalMetaAttrs
+import LiquerProofs.Lemmas.EvalKept
 
 namespace Liquer.C18
 open Liquer.C18R
@@ -112,7 +127,7 @@ theorem isResource_no_predecessor (q : Query) (h : q.isResource = true) : q.pred
 
 /-- the evaluation of `q` reaches its last step `r`: the predecessor is empty or evaluates successfully -/
 def Reaches (env : Env) (n : Nat) (input : Option Val) (p : Query) (e0 : EState) (m0 : MetaRec) (parent : Str) : Prop :=
-  (p.segments.isEmpty = true ∧ e0 = initSt env input ∧ m0 = initMeta input ∧ parent = []) ∨
+  (p.segments.isEmpty = true ∧ e0 = C18R.initSt env input ∧ m0 = initMeta input ∧ parent = []) ∨
   (p.segments.isEmpty = false ∧ metaQ env n p (p.encode Gen.escapeTable) .none input = (.st e0, m0) ∧ e0.isError = false ∧
     parent = p.encode Gen.escapeTable)
 
@@ -126,7 +141,7 @@ theorem metaQ_reached (env : Env) (n : Nat) (q p : Query) (r : Option Seg) (raw 
     · rw [isResource_no_predecessor q hq] at hp; cases hp
   simp only [hres, Bool.false_eq_true, if_false, hp]
   rcases hr with ⟨hpe, rfl, rfl, rfl⟩ | ⟨hpe, hm, he0, rfl⟩
-  · simp [hpe, metaAfter, initSt]
+  · simp [hpe, metaAfter, C18R.initSt]
   · simp [hpe, hm, metaAfter, he0]
 
 /-- one command action applied to a successful state: what `evaluate_action` records -/
@@ -337,11 +352,131 @@ example : isUpperFirst (s "Keep") = true ∧ isUpperFirst (s "low") = false ∧
 
 end Ex
 
-/-! ### the kept copies (statement only: outside `metaOf`, covered by the oracle on the implementation) -/
+/-! ### the copy kept by the cache (cache model of `evalQ`) -/
+
+/-- SUCCESS.  In a sound world with the cache enabled, after an evaluation that returns a successful, non-volatile,
+caching-enabled state through an action or a file name (`hasStep`), the record kept under the canonical key has status
+`ready` and holds a state `s` equal to the returned one up to `status`.  The metadata model returns metadata for this
+evaluation, and every record it returns (any fuel) agrees with the kept state on every state-determined field
+(`stateView` / `recOfState`), carries no error flag, and — once an action was executed — has the kept status. -/
+theorem c18_kept_copy_success {env : Env} {C : Query → Prop} {T : Str → Prop} (hC : Closed env C T)
+    (hcanon : ∀ q, C q → CanonOK env q) (n : Nat) (w : World) (q : Query) (raw : Str) (hS : Sound env w)
+    (hen : w.enabled = true) (hCq : C q) (st : EState)
+    (h : (evalQ env (n+1) w q raw .none none true).2 = .st st)
+    (hc : st.caching = true) (he : st.isError = false) (hv : st.volatile = false) (hstep : q.hasStep = true) :
+    ∃ s, keptAfter env (n+1) w q raw = some (statusReady, some s) ∧ s.core = st.core ∧
+      (∃ m, (metaOf env m q raw .none none).isSome = true) ∧
+      ∀ m mrec, metaOf env m q raw .none none = some mrec →
+        mrec.stateView = recOfState s ∧ mrec.isError = false ∧
+        (mrec.lastName ≠ none → mrec.status = some statusReady) :=
+  kept_copy_success hC hcanon n w q raw hS hen hCq st h hc he hv hstep
+
+/-- the state-determined fields, one by one: what `stateView = recOfState s` says -/
+theorem c18_kept_copy_fields (m : MetaRec) (s : EState) (h : m.stateView = recOfState s) :
+    m.query = s.query ∧ m.isError = s.isError ∧
+    m.typeId = typeIdIn Gen.valueTypeTable s.data ∧ m.dataKind = dataKindIn Gen.valueTypeTable s.data ∧
+    m.lastCommand = s.commands.getLast?.getD [] ∧ m.lastName = (s.commands.getLast?.getD []).head? ∧
+    m.filename = s.filename ∧ m.extension = s.extension ∧ m.attrs = s.attrs ∧
+    m.status = (recOfState s).status ∧ m.mimetype = (recOfState s).mimetype := by
+  have hq := congrArg MetaRec.query h
+  have h1 := congrArg MetaRec.isError h
+  have h2 := congrArg MetaRec.typeId h
+  have h3 := congrArg MetaRec.dataKind h
+  have h4 := congrArg MetaRec.lastCommand h
+  have h5 := congrArg MetaRec.lastName h
+  have h6 := congrArg MetaRec.filename h
+  have h7 := congrArg MetaRec.extension h
+  have h8 := congrArg MetaRec.attrs h
+  have h9 := congrArg MetaRec.status h
+  have h10 := congrArg MetaRec.mimetype h
+  exact ⟨hq, h1, h2, h3, h4, h5, h6, h7, h8, h9, h10⟩
+
+/-- ERROR.  In a sound world with the cache enabled, after an evaluation (typed as the canonical text) that returns an
+error state, the record kept under the canonical key is metadata-only with status `error`; the metadata model returns
+metadata, and every record it returns carries the error flag and the same status: both are marked as error. -/
+theorem c18_kept_copy_error {env : Env} {C : Query → Prop} {T : Str → Prop} (hC : Closed env C T)
+    (hcanon : ∀ q, C q → CanonOK env q) (n : Nat) (w : World) (q : Query) (hS : Sound env w)
+    (hen : w.enabled = true) (hCq : C q) (st : EState)
+    (h : (evalQ env (n+1) w q (q.encode Gen.escapeTable) .none none true).2 = .st st) (he : st.isError = true) :
+    keptAfter env (n+1) w q (q.encode Gen.escapeTable) = some (s "error", none) ∧
+      (∃ m, (metaOf env m q (q.encode Gen.escapeTable) .none none).isSome = true) ∧
+      ∀ m mrec, metaOf env m q (q.encode Gen.escapeTable) .none none = some mrec →
+        mrec.isError = true ∧ mrec.status = some (s "error") :=
+  kept_copy_error hC hcanon n w q hS hen hCq st h he
+
+/-- UNCACHED.  In a sound world, after an evaluation that returns a successful but volatile or cache-disabled state
+through an action or a file name, no record is kept under the canonical key — in particular no data, visible or hidden
+(C05's `not_admitted`, sharpened) — while the returned metadata still describes the returned state. -/
+theorem c18_kept_copy_uncached {env : Env} {C : Query → Prop} {T : Str → Prop} (hC : Closed env C T)
+    (hcanon : ∀ q, C q → CanonOK env q) (n : Nat) (w : World) (q : Query) (raw : Str) (hS : Sound env w) (hCq : C q)
+    (st : EState) (h : (evalQ env (n+1) w q raw .none none true).2 = .st st)
+    (he : st.isError = false) (hbad : st.volatile = true ∨ st.caching = false) (hstep : q.hasStep = true) :
+    keptAfter env (n+1) w q raw = none ∧
+      (evalQ env (n+1) w q raw .none none true).1.dataAt (q.encode Gen.escapeTable) = none ∧
+      (∃ m, (metaOf env m q raw .none none).isSome = true) ∧
+      ∀ m mrec, metaOf env m q raw .none none = some mrec → mrec.stateView = recOfState st :=
+  kept_copy_uncached hC hcanon n w q raw hS hCq st h he hbad hstep
+
+/-! non-vacuity (the family `one`, `one/add-2`, `one/boom`, `one/vol`, `one/nocache` of Lemmas/EvalKept.lean, empty world) -/
+
+namespace KeptEx
+open Liquer.Ex
+
+/-- the common hypotheses: a closed class with the canonical-text hypothesis, the empty world is sound and enabled -/
+example : Closed env0 CK T0 ∧ (∀ q, CK q → CanonOK env0 q) ∧ Sound env0 {} ∧ ({} : World).enabled = true ∧
+    CK qOneAdd ∧ CK qOneBoom ∧ CK qOneVol ∧ CK qOneNocache :=
+  ⟨closedK, canonK, Sound.empty _, rfl, Or.inl rfl, Or.inr (Or.inl rfl), Or.inr (Or.inr (Or.inl rfl)),
+    Or.inr (Or.inr (Or.inr (Or.inl rfl)))⟩
+
+/-- `c18_kept_copy_success`: `one/add-2` from the empty world is successful, non-volatile, caching on, has a step; the kept
+record is `ready` and core-equal to the returned state; the metadata of the metadata model agrees with the kept state on
+the state-determined fields (and these are not trivial: `add`, `ready`, `Integer`) -/
+example :
+    let r := evalQ env0 9 {} qOneAdd (s "one/add-2") .none none true
+    qOneAdd.hasStep = true ∧
+    (match r.2, keptAfter env0 9 {} qOneAdd (s "one/add-2") with
+     | .st st, some (status, some k) =>
+       st.caching && !st.isError && !st.volatile && decide (status = statusReady) && decide (k.core = st.core) &&
+       decide ((metaOf env0 8 qOneAdd (s "one/add-2") .none none).map (·.stateView) = some (recOfState k)) &&
+       decide (((recOfState k).lastName, (recOfState k).status, (recOfState k).dataKind) =
+         (some (s "add"), some (s "ready"), s "Integer"))
+     | _, _ => false) = true := by
+  decide +kernel
+
+/-- `c18_kept_copy_error`: `one/boom` typed canonically fails; the kept record is metadata-only with status `error`, and so
+is the returned metadata -/
+example :
+    qOneBoom.encode Gen.escapeTable = s "one/boom" ∧
+    (evalQ env0 9 {} qOneBoom (s "one/boom") .none none true).2.obs.map (·.value) = some none ∧
+    keptAfter env0 9 {} qOneBoom (s "one/boom") = some (s "error", none) ∧
+    (metaOf env0 8 qOneBoom (s "one/boom") .none none).map (fun m => (m.isError, m.status)) =
+      some (true, some (s "error")) := by
+  decide +kernel
+
+/-- `c18_kept_copy_uncached`: `one/vol` (volatile) and `one/nocache` (caching switched off) succeed and have a step;
+nothing is kept under their keys, while the prefix `one` is kept -/
+example :
+    qOneVol.hasStep = true ∧ qOneNocache.hasStep = true ∧
+    (match (evalQ env0 9 {} qOneVol (s "one/vol") .none none true).2 with
+     | .st st => !st.isError && st.volatile | _ => false) = true ∧
+    (match (evalQ env0 9 {} qOneNocache (s "one/nocache") .none none true).2 with
+     | .st st => !st.isError && !st.caching | _ => false) = true ∧
+    keptAfter env0 9 {} qOneVol (s "one/vol") = none ∧ keptAfter env0 9 {} qOneNocache (s "one/nocache") = none ∧
+    ((evalQ env0 9 {} qOneVol (s "one/vol") .none none true).1.kept (s "one")).map (·.1) = some statusReady := by
+  decide +kernel
+
+end KeptEx
+
+/-! ### the kept copies in general (statement only: a schema over unmodelled values) -/
 
 /-- full statement about the copies of the metadata kept by the cache and by the store: for a successful evaluation
 they agree with the returned metadata on every field of `MetaRec`; for a failed one both are marked as error.
-`cached` / `stored` stand for `cache.get_metadata(encode q)` / `store.get_metadata(store_key)` after the evaluation. -/
+`cached` / `stored` stand for `cache.get_metadata(encode q)` / `store.get_metadata(store_key)` after the evaluation:
+they are arbitrary values here, not connected to any model, so this definition is a schema and cannot be proved as it
+stands.  The CACHE part is proved on the cache model by `c18_kept_copy_success` / `c18_kept_copy_error` /
+`c18_kept_copy_uncached` (for the fields of `MetaRec` that are a function of the kept state; the entries of the cache model
+do not carry the context-recorded fields).  The STORE copy (`store_key`) has no model: it remains covered by the
+implementation-side oracle of harness/props/C18.py only. -/
 def c18_kept_copy_agrees_statement : Prop :=
   ∀ (env : Env) (n : Nat) (q : Query) (raw : Str) (input : Option Val) (m : MetaRec)
     (cached stored : Option MetaRec),
@@ -351,5 +486,5 @@ def c18_kept_copy_agrees_statement : Prop :=
 
 end Liquer.C18
 
--- OBLIGATIONS: Liquer.C18.c18_outcome_agrees Liquer.C18.c18_meta_iff_state Liquer.C18.c18_status_iff Liquer.C18.c18_describes_value Liquer.C18.c18_action_step Liquer.C18.c18_last_action Liquer.C18.c18_filename Liquer.C18.c18_attributes Liquer.C18.c18_attributes_step
+-- OBLIGATIONS: Liquer.C18.c18_outcome_agrees Liquer.C18.c18_meta_iff_state Liquer.C18.c18_status_iff Liquer.C18.c18_describes_value Liquer.C18.c18_action_step Liquer.C18.c18_last_action Liquer.C18.c18_filename Liquer.C18.c18_attributes Liquer.C18.c18_attributes_step Liquer.C18.c18_kept_copy_success Liquer.C18.c18_kept_copy_fields Liquer.C18.c18_kept_copy_error Liquer.C18.c18_kept_copy_uncached
 -- STATEMENT-ONLY: Liquer.C18.c18_kept_copy_agrees_statement
